@@ -107,7 +107,10 @@ def computed_bipartite(L, R, E, order="sorted", base="BipartiteGraph", name=None
         def right_neighbors(self, u):
             if not (1 <= u <= self.lorder):
                 raise ValueError("Invalid choice of vertex")
-            return self._listed([v for v in range(1, self.rorder + 1) if (u, v) in self._own], u)
+            out = self._listed([v for v in range(1, self.rorder + 1) if (u, v) in self._own], u)
+            if order == "generator":
+                return (v for v in out)         # a one-shot iterator, as a method written with `yield` gives
+            return out
 
         def left_neighbors(self, v):
             if not (1 <= v <= self.rorder):
